@@ -5,17 +5,17 @@ check("C15",
  "DESIGN.md §4 C15")
 check("C18",
  "allocation-site points-to + write-effect analysis over SSA (who may write shared memory)",
- "Decides the schedule-independent obligation the property itself names, in an alias-aware form: in code reachable from any exported entry point no store/copy/append/map-update/external write may target (1) a package-level variable or anything reachable from one, (2) a codec instance or anything reachable from it, (3) the caller's parameters object except guarded normalisation; and library code uses no goroutines/sync/atomic/unsafe/reflect/cgo. Exhaustive over the resolved program (every effect site is an obligation). It does not execute schedules or a race detector, so it proves absence of shared writes, not equality of results.",
+ "Decides the schedule-independent obligation the property itself names, in an alias-aware form: in code reachable from any exported entry point no store/copy/append/map-update/external write may target (1) a package-level variable or anything reachable from one, (2) a codec instance or anything reachable from it, (3) the caller's parameters object except guarded normalisation; (4) no method of a registered codec type may return a pointer to a mutable library object reachable from the codec instance or a package-level variable (NO-SHARED-RESULT); and library code uses no goroutines/sync/atomic/unsafe/reflect/cgo. Exhaustive over the resolved program (every effect site is an obligation). It does not execute schedules or a race detector, so it proves absence of shared writes, not equality of results.",
  "trusted: go/ssa + VTA call graph (CHA in thorough), frozen effect table for ~40 standard-library callees, context-insensitive heap abstraction with separate init/run contexts; one reviewed exception (init-guarded VLC table regeneration) with a structural keep-alive condition",
  "DESIGN.md §4 C18, §3.2")
 check("C10",
  "CFG shape rule for frame loops + points-to/effects + field carry-over (must-definition) analysis",
- "Decides the structural clauses of the codec contract: (1) every codec's GetFrame/AddFrame pairing is a counted loop 0..FrameCount()-1 with exactly one dominating AddFrame per cycle fed by that iteration's frame and error-only early exits; (2) no state is carried between calls or frames on jpeg2000.Encoder/Decoder objects and on any object a codec allocates outside its frame loop (fields read before being re-assigned and written during a call; accumulate-only / never-reset / incompletely keyed caches are violations); (3) no write effect on the caller's input bytes; (4) no nondeterminism sources, every map range order-insensitive; (5) information-flow necessary condition for the decoded container width to follow BitsAllocated. Byte equality of lossless round trips and numeric output are not decided.",
+ "Decides the structural clauses of the codec contract: (1) every codec's GetFrame/AddFrame pairing is a counted loop 0..FrameCount()-1 (classic or range-over-int form; helpers that fetch/append the frame named by their parameters and per-frame callbacks are followed) with exactly one dominating AddFrame per cycle fed by that iteration's frame and error-only early exits, and every registered codec's Encode and Decode reaches such a loop; (2) no state is carried between calls or frames on jpeg2000.Encoder/Decoder objects and on any object a codec allocates outside its frame loop (fields read before being re-assigned and written during a call; accumulate-only / never-reset / incompletely keyed caches are violations); (3) no write effect on the caller's input bytes; (4) no nondeterminism sources, every map range order-insensitive; (5) information-flow necessary condition for the decoded container width to follow BitsAllocated. Byte equality of lossless round trips and numeric output are not decided.",
  "trusted: as C18 (shared engine E1) plus the must-definition analysis' treatment of nil/error guards; known findings: 6 codecs ignore BitsAllocated (recorded, not repaired)",
  "DESIGN.md §4 C10, §3.2")
 check("C08",
  "interprocedural interval + stream-taint (abstract interpretation over SSA) on panic-capable integer operations",
- "Decides the listed panic classes only: over every function reachable from a decoding entry point, each fixed-size-array index, integer divisor, make size, signed shift count, comma-less type assertion and explicit panic is an obligation. 'Discharged' is a sound over-approximation in the interval/known-bits domain; 'violated' is reported only on a witness shape (stream-tainted operand that is exactly out of range, has no limit applied at all, or is a never-compared field still holding its zero value); the rest is counted out-of-scope. Slice/string bounds, nil dereference and stack depth are NOT decided, so a clean run does not imply C08; a violation refutes it.",
+ "Decides the listed panic classes only: over every function reachable from a decoding entry point, each fixed-size-array index, integer divisor, make size, signed shift count, comma-less type assertion and explicit panic is an obligation. 'Discharged' is a sound over-approximation in the interval/known-bits domain; 'violated' is reported only on a witness shape (stream-tainted operand that is exactly out of range, has no limit applied at all, or is a never-compared field still holding its zero value); the rest is counted out-of-scope. Four slice shapes that need no relation between variables are decided as well (constant index/bound without any dominating length test; s[a:a+n] with a possibly negative exact n; s[len(s)-k] with less than k established along the call chain to an exported entry point; s[a:b] whose stream-derived bounds are never compared). Other slice/string bounds, nil dereference and stack depth are NOT decided, so a clean run does not imply C08; a violation refutes it.",
  "trusted: go/ssa, VTA call graph, points-to closure deciding which byte buffers hold stream data, field/element summaries with exit-refined stores (assumes parse errors are propagated and the object dropped)",
  "DESIGN.md §4 C08, §3.3")
 check("C17",
@@ -25,7 +25,7 @@ check("C17",
  "DESIGN.md §4 C17")
 check("C16",
  "CFG dominance rules for framing + who-may-write (ownership) rule for entropy-coder sinks + symbolic byte counting of marker segments",
- "Decides structural clauses of well-formedness: (ORDER-FRAMING) in every function that starts a codestream the start-marker write dominates all other writes to the output, the end-marker write dominates every nil-error return and nothing follows it; (BYTES) for every hand-written JPEG 2000 marker segment, SOT/Psot and TLM the bytes written are counted as a linear expression over len() terms (range loops multiplied by their trip count) and must equal the expression stored in the length field; JPEG length-bearing markers go through Writer.WriteSegment (OWNER-LENGTH); (OWNER-SINK) the byte sinks of the Huffman, Golomb and packet-header bit writers are written only by the one function that applies stuffing. Correctness of the stuffing arithmetic, field order and values inside headers are not decided.",
+ "Decides structural clauses of well-formedness: (ORDER-FRAMING) in every function that starts a codestream the start-marker write dominates all other writes to the output, the end-marker write dominates every nil-error return and nothing follows it; (BYTES) for every hand-written JPEG 2000 marker segment, SOT/Psot and TLM the bytes written are counted as a linear expression over len() terms (range loops multiplied by their trip count) and must equal the expression stored in the length field; JPEG length-bearing markers go through Writer.WriteSegment (OWNER-LENGTH); (OWNER-SINK) the byte sinks (discovered structurally: a writer/buffer/byte-slice field of a library struct for which some method both tests what it emits against 0xFF and writes the field) of the Huffman, Golomb and packet-header bit writers are written only by the one function that applies stuffing. Correctness of the stuffing arithmetic, field order and values inside headers are not decided.",
  "trusted: go/ssa; marker constants resolved by value; sequence of writes taken in dominance order (conditional write sequences are out of scope)",
  "DESIGN.md §4 C16")
 check("C09",
@@ -35,7 +35,7 @@ check("C09",
  "DESIGN.md §4 C09")
 check("C04",
  "sibling cross-check: exhaustiveness of enum dispatch + loop-nest signature agreement between packet encoder and decoder",
- "Decides one structural clause of C04 only - 'same precinct / code-block / progression enumeration on both sides': every switch over t2.ProgressionOrder handles all five declared constants (error default on the encoder/decoder dispatchers), and for each constant the encoder's and the decoder's packet-enumerating functions nest their layer / resolution / component / precinct loops in the same order. Exhaustive over the finite enum. Exact reconstruction (tag trees, bit stuffing, DWT, block coding, MCT) is value-level and not decided.",
+ "Decides one structural clause of C04 only - 'same precinct / code-block / progression enumeration on both sides': every dispatch over t2.ProgressionOrder that selects a packet-enumerating function (switch, if-chain or table of functions) handles all five declared constants, and for each constant the encoder's and the decoder's packet-enumerating functions nest their layer / resolution / component / precinct loops in the same order. Exhaustive over the finite enum. Exact reconstruction (tag trees, bit stuffing, DWT, block coding, MCT) is value-level and not decided.",
  "trusted: go/ssa loop structure; the per-packet call is recognised by its (layer, resolution, component, precinct) parameters",
  "DESIGN.md §4 C04")
 check("C19",
@@ -45,7 +45,7 @@ check("C19",
  "DESIGN.md §4 C19")
 check("C05",
  "data-flow / who-may-store rule on EncodeParams.Lossless resolved per codec registration",
- "Decides one structural clause of C05 only - 'no accepted parameter value can select the irreversible path on a lossless-only transfer syntax': all 14 Registry.RegisterCodec calls are resolved (syntax, constructor, codec type); for .90 and .92 every store to jpeg2000.EncodeParams.Lossless reachable from the codec's Encode stores the constant true or sits on a branch the registered constructor makes dead. Whether the final layer receives all remaining passes under rate control, and the byte-exact round trip, are value-level and not decided.",
+ "Decides one structural clause of C05 only - 'no accepted parameter value can select the irreversible path on a lossless-only transfer syntax': all 14 Registry.RegisterCodec calls are resolved (syntax, constructor, codec type; directly or, for table-driven registration, through points-to and the constructor's store of the transfer.* variable); for .90 and .92 every store to jpeg2000.EncodeParams.Lossless reachable from the codec's Encode stores the constant true or sits on a branch the registered constructor makes dead. Whether the final layer receives all remaining passes under rate control, and the byte-exact round trip, are value-level and not decided.",
  "trusted: go/ssa, VTA reachability from the codec's Encode; lossless-only syntax set frozen from the DICOM UIDs in the property statement",
  "DESIGN.md §4 C05")
 check("C06",
